@@ -59,6 +59,18 @@ def doc_events(b, sch, rd, toks, rng, slices, nodes, n_ranges):
                 opdrive.ev_replace_family(b, rd, di, op, f, f if op == "insert" else t, rng.choice(nodes), True)
             n_ev += 1
         opdrive.ev_lift_target(b, rd, di, f, t, True)
+    # Slice.max_open on the document's own content and on the content of every isolating node
+    for oi in (True, False):
+        opdrive.ev_max_open(b, rd.content, oi)
+    for o, c in spans:
+        try:
+            node = rd.node_at(o - 1)
+            if node is not None:
+                from prosemirror.model import Fragment
+                opdrive.ev_max_open(b, Fragment.from_(node), False)
+                opdrive.ev_max_open(b, node.content, False)
+        except Exception:  # noqa: BLE001
+            pass
     for o, c in spans:
         for p in range(o, c):
             for depth in (1, 2, 3):
@@ -94,7 +106,7 @@ def run(tier: str, seed: int, t0: float) -> int:
     c11.collect(jobs, "C18", stats, out)
     ok_ops = sum(v for k, v in stats.counts.items() if k.endswith(":ok") and k.split(":")[0] in c11.OPS)
     stats.counts["replace_family_inside_isolating:ok"] = ok_ops
-    for key, least in (("replace_family_inside_isolating:ok", 1500), ("delete_range:ok", 100), ("replace_range:ok", 100), ("lift_target:ok", 20), ("can_split:ok", 100)):
+    for key, least in (("replace_family_inside_isolating:ok", 1500), ("delete_range:ok", 100), ("replace_range:ok", 100), ("lift_target:ok", 20), ("can_split:ok", 100), ("max_open:ok", 50)):
         if stats.counts.get(key, 0) < least:
             raise core.MachineryError(f"vacuity gate: {key}={stats.counts.get(key, 0)} < {least}")
     return core.finish("C18", tier, seed, stats, out, t0,
